@@ -473,3 +473,45 @@ def split_exits(fl, exits):
         else:
             out.append(e)
     return out
+
+
+def dict_facts(fl):
+    """{key: [(value RF, event, container RF or None)]} for every entry a function gives a dictionary, whether by
+    `d['k'] = v` (container = the subscripted base) or in a literal `{'k': v}` (container = the literal), so a rule
+    can ask "what is stored under 'k'" without caring how the dictionary is put together."""
+    tab = fl.tab
+    out = {}
+    seen = set()
+
+    def from_dict_atom(rf, e):
+        for a in rf.all_atoms():
+            at = tab.atoms[a]
+            if at.head != 'dict' or a in seen:
+                continue
+            seen.add(a)
+            for k, v in zip(at.args[0::2], at.args[1::2]):
+                ka = tab.atoms[k.single_atom()] if isinstance(k, RF) and k.single_atom() is not None else None
+                if ka is not None and ka.head == 'const' and isinstance(v, RF):
+                    key = ka.args[0]
+                    if key[:1] in '\'"':
+                        key = key[1:-1]
+                    out.setdefault(key, []).append((v, e, RF(tab, __import__('sa.algebra', fromlist=['p_atom']).p_atom(a))))
+    for e in fl.events:
+        if e.kind == 'store':
+            ta = atom_of(fl, e.target)
+            if ta is not None and ta.head == 'idx' and len(ta.args) == 2 and isinstance(ta.args[1], RF):
+                ka = atom_of(fl, ta.args[1])
+                if ka is not None and ka.head == 'const':
+                    key = ka.args[0]
+                    if key[:1] in '\'"':
+                        key = key[1:-1]
+                    out.setdefault(key, []).append((e.value, e, ta.args[0]))
+        for k in ('value',):
+            v = getattr(e, k, None)
+            if isinstance(v, RF) and e.kind in ('assign', 'store', 'return', 'yield', 'exprstmt'):
+                from_dict_atom(v, e)
+        if e.kind == 'call':
+            for v in list(e.args) + list(e.kw.values()):
+                if isinstance(v, RF):
+                    from_dict_atom(v, e)
+    return out
